@@ -17,7 +17,7 @@
    event type, and the shape of the producers' hand-over: one plain blocking channel send)
    come from gen/Gen_EventWriter.v, regenerated from the source on every run.
    Definitions only; proofs are in proofs/EventWriter_proofs.v. *)
-From Verif Require Import Common Gen_EventWriter.
+From Verif Require Import Common Gen_EventWriter EventRegistry.
 Open Scope N_scope.
 
 (* ---------- events, keys, messages ---------- *)
@@ -450,6 +450,16 @@ Inductive c19_case :=
       observations of all its operations merged into one: worst result code, every batch at
       entry of the write function, Close returned, every batch at return, and the stall
       observation of the OFull operation *)
+| CReg (ops : list rop) (handed : list N) (registered : list (N * N)) (leaked : N) (pubs : N)
+       (flat : list (N * N)) (res : N)
+   (* the per-topic writer registry of core/the driven through EventWriterWithTopic and
+      ClearEventWriters (model: EventRegistry).  ops: the calls in the order the harness lists
+      them — calls of one group were issued concurrently behind the held registry lock —, the
+      last one is the final ClearEventWriters; handed: per call the identity (+1) of the writer
+      it returned, 0 for a Clear; registered: the registry (topic, identity + 1) just before the
+      final Clear; leaked: writingLoop / batchingLoop goroutines left after the final Clear;
+      pubs: events whose WriteEvent returned; flat: (producer, tag) in the order the events
+      reached the write functions of all writers; res: 0, or 9 = something did not settle *)
 | CCrash (kind : N)
    (* the process running the writer died while the harness ran a case (the harness recovers a
       panic of a WriteEvent call in the calling goroutine, so this is a panic or fatal error in a
@@ -459,6 +469,86 @@ Inductive c19_case :=
       the return of the write function; hangs = trials in which Close never returned with the
       batcher gone and the writer in cond.Wait; lost = trials in which Close returned with an
       accepted event undelivered *)
+
+Fixpoint distinctN (l seen : list N) : list N :=
+  match l with
+  | [] => seen
+  | x :: r => if memN x seen then distinctN r seen else distinctN r (x :: seen)
+  end.
+
+(* ---------- registry cases ---------- *)
+Definition rop_topic (o : rop) : option N := match o with RGet t => Some t | RClear => None end.
+
+(* model: every call runs to completion in turn (the projection compared is the same for every
+   schedule: C19_registry_same_writer_for_all_producers); identities are compared up to renaming *)
+Definition reg_registered_pred (ops : list rop) (handed : list N) : list (N * N) :=
+  let pre := removelast ops in
+  let s := reg_end pre in
+  let tr := combine (reg_results pre) handed in
+  map (fun e => (fst e, match assocN (snd e + 1) tr with Some h => h | None => 0 end)) (r_reg s).
+
+Definition pairs_subset (a b : list (N * N)) : bool :=
+  forallb (fun x => existsb (fun y => (fst x =? fst y) && (snd x =? snd y)) b) a.
+
+Definition corr_reg (ops : list rop) (handed : list N) (registered : list (N * N))
+           (leaked pubs : N) (flat : list (N * N)) (res : N) : bool :=
+  list_eqb N.eqb (canon (reg_results ops)) (canon handed) &&
+  pairs_subset (reg_registered_pred ops handed) registered &&
+  pairs_subset registered (reg_registered_pred ops handed) &&
+  (* after ClearEventWriters every writer ever built is closed (C19_registry_clear_closes_all),
+     a closed writer has delivered everything it accepted and its loops are gone (C19_flush) *)
+  (leaked =? 0) && (Nlen flat =? pubs) && (res =? 0).
+
+(* monitor, on the observation alone *)
+Fixpoint reg_same_writer (ops : list rop) (handed : list N) (cur : list (N * N)) : bool :=
+  match ops, handed with
+  | RClear :: r, _ :: h => reg_same_writer r h []
+  | RGet t :: r, w :: h =>
+    match assocN t cur with
+    | Some w' => (w =? w') && reg_same_writer r h cur
+    | None => reg_same_writer r h ((t, w) :: cur)
+    end
+  | _, _ => true
+  end.
+
+(* the calls since the last Clear that is not the final one *)
+Fixpoint reg_last_round (ops : list rop) (handed : list N) (acc : list (N * N)) : list (N * N) :=
+  match ops, handed with
+  | RClear :: [], _ => acc
+  | RClear :: r, _ :: h => reg_last_round r h []
+  | RGet t :: r, w :: h => reg_last_round r h ((t, w) :: acc)
+  | _, _ => acc
+  end.
+
+Fixpoint pair_increasing (p : N) (last : option N) (l : list (N * N)) : bool :=
+  match l with
+  | [] => true
+  | (p', t) :: r =>
+    if p =? p' then
+      match last with
+      | Some x => (x <? t) && pair_increasing p (Some t) r
+      | None => pair_increasing p (Some t) r
+      end
+    else pair_increasing p last r
+  end.
+
+Definition mon_reg (ops : list rop) (handed : list N) (registered : list (N * N))
+           (leaked pubs : N) (flat : list (N * N)) (res : N) : N :=
+  let round := reg_last_round ops handed [] in
+  (* 13: two producers of one topic (no ClearEventWriters in between) were handed different writers *)
+  if negb (reg_same_writer ops handed []) then 13
+  (* 14: a writer handed out is not the registered writer of its topic *)
+  else if negb (pairs_subset round registered) then 14
+  (* 15: writer goroutines are left after ClearEventWriters: a writer that was handed out was never closed *)
+  else if 0 <? leaked then 15
+  (* 4: shutdown completed although an accepted event never reached the broker *)
+  else if Nlen flat <? pubs then 4
+  (* 1: an event reached the broker twice *)
+  else if pubs <? Nlen flat then 1
+  (* 2: per-producer order *)
+  else if negb (forallb (fun p => pair_increasing p None flat) (distinctN (map fst flat) [])) then 2
+  else if res =? 9 then 8
+  else 0.
 
 Definition corr19 (c : c19_case) : bool :=
   match c with
@@ -473,6 +563,8 @@ Definition corr19 (c : c19_case) : bool :=
          C19_full_accepts_all_in_order) *)
       list_eqb omsg_eqb (concat bs) (map omsg_of (accepted s0 ++ map msg_of_pub l))
     end
+  | CReg ops handed registered leaked pubs flat res =>
+    corr_reg ops handed registered leaked pubs flat res
   | CCrash _ => false
     (* the only panic of the model is a producer's own send on the closed channel
        (C19_panic_only_after_close), and that one stays in the calling goroutine *)
@@ -523,11 +615,6 @@ Fixpoint increasing_from (p : N) (last : option N) (l : list omsg) : bool :=
       | None => increasing_from p (Some t) r
       end
     else increasing_from p last r
-  end.
-Fixpoint distinctN (l seen : list N) : list N :=
-  match l with
-  | [] => seen
-  | x :: r => if memN x seen then distinctN r seen else distinctN r (x :: seen)
   end.
 Definition producers_of (l : list omsg) : list N := distinctN (map (fun m => fst (fst (fst m))) l) [].
 Definition order_ok (l : list omsg) : bool :=
@@ -641,6 +728,8 @@ Definition mon19 (c : c19_case) : N :=
   match c with
   | CSched ops obs => mon_sched ops obs
   | CFull pre l o => mon_sched (pre ++ [OFull l; OClose]) [o]
+  | CReg ops handed registered leaked pubs flat res =>
+    mon_reg ops handed registered leaked pubs flat res
   | CCrash _ => 12
   | CRace _ _ hangs lost => if 0 <? lost then 4 else if 0 <? hangs then 10 else 0
   end.
@@ -657,6 +746,11 @@ Definition tag19 (c : c19_case) : N :=
   match c with
   | CRace mode _ _ _ => 20 + mode
   | CCrash kind => 50 + kind
+  | CReg ops _ _ _ _ _ _ =>
+    (* 60: one topic; +1: several topics; +2: the registry was cleared and used again *)
+    60 + (if 1 <? Nlen (distinctN (flat_map (fun o => match o with RGet t => [t] | RClear => [] end) ops) [])
+          then 1 else 0)
+       + (if 1 <? Nlen (filter (fun o => match o with RClear => true | _ => false end) ops) then 2 else 0)
   | CFull _ l o => if fst (o_stall o) <? Nlen l then 41 else 40
       (* 41: the channel was full and producers waited for the batching loop; 40: the burst fitted *)
   | CSched ops obs =>
